@@ -2,8 +2,6 @@ package checks
 
 import (
 	"bytes"
-	"runtime"
-	"sync"
 	"encoding/base64"
 	"fmt"
 	"io"
@@ -12,8 +10,10 @@ import (
 	"net/url"
 	"os"
 	"path/filepath"
+	"runtime"
 	"strconv"
 	"strings"
+	"sync"
 	"sync/atomic"
 	"syscall"
 	"time"
